@@ -219,3 +219,12 @@ claim(
     "abstract interpretation with a concrete shared-reference heap; before/after heap snapshot comparison and aliasing (ownership) check along the path",
     "DESIGN.md §5 C40",
 )
+
+claim(
+    "C43",
+    "other",
+    "Narrow on polygons (the point-in-polygon routine is a library call). Decides the rasterisation predicates by abstract interpretation with symbolic grid edges, radii and spacing: for spheres / ellipsoids (all per-axis radius fallbacks) and cylinders along each axis, on the uniform fallback and on a resolved non-uniform grid, the comparison that defines every mask cell is observed as the interpreter makes it and must read sum_axes((cell centre - box centre)/radius_axis)^2 < 1 with a strict <, cell centre (i+1/2)*spacing resp. (e_i+e_{i+1})/2 - e_lower of the object's own slice, box centre half the object's own extent on the same axis, each radius paired with its own axis, cylinders using their two transverse axes and constant along their own. For the extruded polygon the sample coordinates handed to the point-in-polygon routine are those cell centres per axis, vertices are shifted by the box centre, and the 2-D mask is repeated unchanged along the extrusion axis.",
+    TB + "; observation of scalar comparisons as they are made (operands extracted); models of meshgrid / stack / expand_dims / repeat; point-in-polygon routine outside the analysis",
+    "abstract interpretation with symbolic geometry; operand extraction of the defining comparison and polynomial identity against the centre-inclusion oracle; recorded-call check of the polygon sampler",
+    "DESIGN.md §5 C43",
+)
